@@ -2,6 +2,7 @@
   C13 — revealing is total: any hidden octets, secret and random vector give Ok or Err.
 -/
 import Rl2tp.Proofs.RevealTotal
+import Rl2tp.Proofs.InPlace
 namespace Rl2tp.C13
 
 variable (md5 : Bytes → Bytes) (hmd5 : ∀ x, (md5 x).length = 16)
@@ -50,10 +51,33 @@ theorem reveal_rejects_bad_length (t : UInt16) (v secret : Bytes) (rv : UInt32)
 
 /-! non-vacuity, and the pinned-tree defect D6: without the last guard the sub-reader request exceeds
     what remains (a 16-octet value announcing 100 octets) -/
+/-! ### the decryption loop as the code runs it: in place, last chunk to first, with index expressions that can panic
+
+`revealIP` (Model/InPlace.lean) is `AVP::reveal` with the loop `for i in (1..n).rev() { data[i] ^= MD5(secret ‖ data[i-1]) }`
+on one buffer, each slice / index expression a possible panic.  It is what the correspondence check runs. -/
+
+include hmd5 in
+/-- the in-place `reveal` never faults either: no slice or index expression of the loop is ever out of range, and what
+    follows the loop is the `reveal` of the theorems above -/
+theorem reveal_inplace_total (a : AVP) (secret : Bytes) (rv : UInt32) (f : Fault) :
+    revealIP md5 a secret rv ≠ .error f := by
+  rw [revealIP_eq md5 hmd5]; exact reveal_noFault md5 hmd5 a secret rv f
+
+include hmd5 in
+/-- walking last to first in place computes exactly the chain decryption the other theorems are stated for -/
+theorem reveal_inplace_eq (a : AVP) (secret : Bytes) (rv : UInt32) : revealIP md5 a secret rv = reveal md5 a secret rv :=
+  revealIP_eq md5 hmd5 a secret rv
+
 def constHash : Bytes → Bytes := fun _ => List.replicate 16 0
 example : reveal constHash (.hidden 7 (0 :: 106 :: List.replicate 14 0)) [] 0 = .ok (.error (.invalidOriginalAVPLength 106)) := by
   decide
 example : reveal constHash (.hidden 7 (0 :: 10 :: 0x61 :: 0x62 :: 0x63 :: 0x64 :: List.replicate 10 0)) [] 0 =
     .ok (.ok (.hostName [0x61, 0x62, 0x63, 0x64])) := by decide
+
+/-- the order of the walk matters: the same loop run first-to-last in place (each chunk keyed by its already
+    *decrypted* predecessor) gives a different third chunk — the reverse order is not a detail the model may ignore -/
+def posHash (x : Bytes) : Bytes := (List.range 16).map fun i => UInt8.ofNat (i + (x.getLastD 0).toNat)
+example : ∀ x, (posHash x).length = 16 := fun x => by simp [posHash]
+example : fwdLoop posHash [] 1 2 (List.replicate 48 1) ≠ revLoop posHash [] 2 (List.replicate 48 1) := by decide
 
 end Rl2tp.C13
